@@ -229,6 +229,7 @@ def run(seed, tier, lean) -> Result:
             if nerr or mt != toks:
                 res.violations.append(Violation(what='real lexer and Lean lexer disagree on a valid text', fingerprint='C04:lexer-divergence',
                                                 replay={'src': t, 'real': toks[:50], 'model': (mt or [])[:50]}, no_failing_input=True)); break
+    if lean['build_ok'] and pending: visitor_checks(pending, res)      # translated visitor + tree builder (visitor domain)
     res.samples.append({'source': pending[0][1]['files'][0][1][:600]} if pending else {'note': 'no case compiled'})
     return res
 
@@ -243,3 +244,59 @@ def replay(path):
         print(v.what if v else 'no violation'); print('VIOLATION reproduced' if v else 'not reproduced'); return 1 if v else 0
     got, want, _ = corelang_check()
     print('VIOLATION reproduced' if got != want else 'not reproduced'); return 1 if got != want else 0
+
+
+# ---------------------------------------------------------------------------------------------------------------
+# visitor domain: the hand-written tree builder (Model/Compiler/Tree.lean) against ANTLR's parse tree, and the
+# *translated* visitor (Py/GenVisitor/Visitor.lean) executed on the model's trees against the real compiler
+
+def real_tree(path):
+    """the ANTLR parse tree as nested lists: [rule, child…] / [TOKENTYPE, text, tokenIndex]; None on a syntax error"""
+    from antlr4 import FileStream, CommonTokenStream
+    from antlr4.tree.Tree import TerminalNode
+    from antlr4.error.ErrorListener import ErrorListener
+    from maltoolbox.language.compiler.mal_lexer import malLexer
+    from maltoolbox.language.compiler.mal_parser import malParser
+    class Count(ErrorListener):
+        def __init__(self): super().__init__(); self.n = 0
+        def syntaxError(self, *a): self.n += 1
+    c = Count()
+    lx = malLexer(FileStream(path, encoding='utf-8')); lx.removeErrorListeners(); lx.addErrorListener(c)
+    stream = CommonTokenStream(lx)
+    ps = malParser(stream); ps.removeErrorListeners(); ps.addErrorListener(c)
+    tree = ps.mal()
+    if c.n or stream.LA(1) != -1: return None
+    def walk(n):
+        if isinstance(n, TerminalNode):
+            t = n.symbol
+            return ['EOF' if t.type == -1 else malParser.symbolicNames[t.type], t.text, t.tokenIndex]
+        return [malParser.ruleNames[n.getRuleIndex()]] + [walk(ch) for ch in n.getChildren()]
+    return walk(tree)
+
+def visitor_checks(pending, res):
+    # (1) translated visitor on the model's trees = the real compiler's result, for every compiled variant
+    outs = run_driver([dict(p, op='visit', case=i) for i, (_, p, _, _) in enumerate(pending)])
+    for (spec, p, got, what), o in zip(pending, outs):
+        res.bump('translated-visitor-compared:' + what.split(' (')[0])
+        mo = o.get('model', {})
+        if 'spec' not in mo or malsrc.canon_spec(mo['spec']) != got:
+            res.violations.append(Violation(what=f'implementation and translated visitor (on the model tree) disagree on the compiled specification ({what})',
+                                            fingerprint='C04:translated-visitor-divergence',
+                                            replay={'files': p['files'], 'root': p['root'], 'model': str(mo)[:2000]}, no_failing_input=True))
+            break
+    # (2) the tree builder = ANTLR's parse tree (rule names, child order, token types, texts, token indices)
+    texts = []
+    for _, p, _, _ in pending:
+        for _, t in p['files']:
+            if t not in texts: texts.append(t)
+    texts = texts[:300] + ['']                 # the empty file: `mal: EOF`
+    mout = run_driver([{'op': 'tree', 'case': i, 'src': t} for i, t in enumerate(texts)])
+    d = os.path.join(scratch(), 'c04-tree'); os.makedirs(d, exist_ok=True)
+    for t, o in zip(texts, mout):
+        pth = os.path.join(d, 'x.mal'); open(pth, 'w', encoding='utf-8').write(t)
+        rt = real_tree(pth)
+        mt = o.get('model', {}).get('tree')
+        res.bump('parse trees compared')
+        if rt is None or mt != rt:
+            res.violations.append(Violation(what='ANTLR parse tree and the tree of the Lean tree builder differ on a valid text', fingerprint='C04:tree-divergence',
+                                            replay={'src': t, 'real': str(rt)[:1500], 'model': str(mt)[:1500]}, no_failing_input=True)); break
